@@ -18,6 +18,7 @@ import ast
 from .. import astutil as au
 from ..tables import rule, VAR_CARRIERS, TIME_CARRIERS
 from . import analysis
+from ..carriers import local_roles, role
 
 rule("C15.a", "in the fix-window branch the selector and the pinned vectors live in the same index space (variable labels, "
               "not a per-row mask) for any number of mapping rows per variable", floor=1)
@@ -28,7 +29,9 @@ rule("C13.b", "in the minor-grid extension the arrays of the restricted grid are
 rule("C04.a", "cash-flow / report extraction indexes per-variable vectors by variable label and per-step arrays by time-step "
               "label, after de-duplicating the mapping by index; the sign agrees with the objective", floor=4)
 rule("C07.k", "an index of one space (variable / mapping row / time step / restricted position) never subscripts an array of "
-              "another space", floor=6)
+              "another space", floor=6, props=["C07", "C08"])
+rule("C08.f", "a sum of step lengths over the steps of selected mapping rows first reduces the rows to distinct steps (rows are not "
+              "steps: two variables per step would count every step twice)", floor=1, props=["C08", "C02"])
 
 VAR, MAP, ROW, TIME, TIMER, VARD = "VAR", "MAP", "ROW", "TIME", "TIMEr", "VARd"
 # what may index what
@@ -364,7 +367,7 @@ def _rule_for(fn) -> str:
     return "C07.k"
 
 
-@analysis("spaces", ["C15.a", "C15.f", "C13.b", "C04.a", "C07.k"])
+@analysis("spaces", ["C15.a", "C15.f", "C13.b", "C04.a", "C07.k", "C08.f"])
 def run(ctx):
     p = ctx.p
     counts = {}
@@ -394,6 +397,34 @@ def run(ctx):
                        "%s is an %s but is subscripted with a %s: the two index spaces only coincide by accident (one mapping row "
                        "per variable, one variable per step, window starting at step 0)" % (au.short(n.value, 50), _describe(base), _describe(k)),
                        node=n, ok_detail="%s [ %s ]" % (_describe(base), _describe(k)))
+    # ---------------------------------------------------------------- C08.f sums over steps of rows
+    n_f = 0
+    for fn in sorted(p.all_functions(), key=lambda f: f.qualname):
+        if fn.parent is not None:
+            continue
+        ty2 = None
+        for st in au.walk_stmts(fn.body):
+            for n in au.walk_own(st):
+                if isinstance(n, ast.Call) and au.method_name(n) == "sum" and isinstance(n.func, ast.Attribute) and isinstance(n.func.value, ast.Subscript):
+                    sub = n.func.value
+                    ty2 = ty2 or Typer(ctx, fn)
+                    base = ty2.typ(sub.value, st)
+                    if not (base and base[0] == "arr" and base[1] == TIME):
+                        continue
+                    # do the labels come from the rows of a mapping?
+                    idx_nodes = list(au.walk_local(sub.slice))
+                    from_rows = any(isinstance(x, ast.Subscript) and ((au.const_str(x.slice) == "time_step") or
+                                    (isinstance(x.slice, ast.Tuple) and x.slice.elts and au.const_str(x.slice.elts[-1]) == "time_step")) for x in idx_nodes)
+                    if not from_rows:
+                        continue
+                    n_f += 1
+                    dedup = any(isinstance(x, ast.Call) and au.method_name(x) in ("unique", "drop_duplicates", "set") for x in idx_nodes)
+                    ctx.ob("C08.f", fn, au.short(n, 90), dedup,
+                           "step lengths are summed over the time_step entries of the selected mapping *rows*; with two variables per step "
+                           "(buy/sell spread) or several rows per variable every covered step is counted once per row, so the prorated "
+                           "take volume is a multiple of the documented one", node=n)
+    ctx.require(n_f >= 1, "the proration sum over covered steps (define_restr) was not found")
+
     # ---------------------------------------------------------------- anchors that must not pass vacuously
     helper = [f for f in p.all_functions() if f.qualname.endswith("__extend_mapping_to_minor_grid__")]
     ctx.require(bool(helper), "the minor-grid extension helper vanished")
@@ -403,8 +434,9 @@ def run(ctx):
     ctx.require(pfn is not None, "Portfolio.setup_optim_problem vanished")
     fix_if = [s2 for s2 in au.walk_stmts(pfn.body) if isinstance(s2, ast.If) and "fix_time_window" in au.names_in(s2.test)]
     ctx.require(bool(fix_if), "the fix_time_window branch of Portfolio.setup_optim_problem vanished")
+    pfn_roles = local_roles(pfn)
     pins = [s2 for s2 in au.walk_stmts(fix_if[0].body) if isinstance(s2, ast.Assign) and isinstance(s2.targets[0], ast.Subscript)
-            and au.terminal(s2.targets[0].value) in ("l", "u")]
+            and role(s2.targets[0].value, pfn_roles) in ("l", "u")]
     if not pins:
         ctx.ob("C15.a", pfn, "bounds pinned in the fix-window branch", False,
                "the fix-window branch no longer writes l[...] / u[...]: nothing is pinned", node=fix_if[0])
